@@ -183,6 +183,8 @@ def gen_numeric(ctx: Ctx, frozen=False, single=False, malformed=False, window=Fa
     if window:
         n = max(n, 2)
         thickness = (thickness + [1.0])[:n] if len(thickness) >= n else thickness + [1.0] * (n - len(thickness))
+    if malformed and pot == "crystal":
+        pot = "atoms"  # (the crystal potential repeats the unit: its slice count differs from n, the tuple could be valid there)
     win = 0
     if window:
         a = rng.choice([0, 0, rng.randint(0, n - 1)])
